@@ -10,6 +10,7 @@ import io
 import os
 import subprocess
 import sys
+import tempfile
 
 from . import REPO
 
@@ -102,7 +103,10 @@ def spawn(tool, argv, stdin_text="", cwd=None, env=None, timeout=120):
             "from cnfgen.clitools.%s import main; main()" % (REPO, tool, tool))
     e = dict(os.environ)
     e.pop("PYTHONPATH", None)
-    e["PYTHONDONTWRITEBYTECODE"] = "1"
+    # bytecode goes to a scratch cache outside the repository (nothing is written into /repo,
+    # and a fresh process does not recompile 16k lines each time)
+    e.pop("PYTHONDONTWRITEBYTECODE", None)
+    e["PYTHONPYCACHEPREFIX"] = os.path.join(tempfile.gettempdir(), "vmon-pycache-%d" % os.getuid())
     if env:
         e.update(env)
     p = subprocess.run([sys.executable, "-c", code] + list(argv), input=stdin_text.encode(),
